@@ -143,7 +143,7 @@ def kani_cmd(build, target_dir, harness_ids, jobs, timeout_s, json_path, extra=N
         cmd += ["--harness", h]
     if extra:
         cmd += extra
-    cmd += ["--cbmc-args"] + registry.CBMC_ARGS
+    cmd += ["--cbmc-args"] + registry.CBMC_ARGS + os.environ.get("VERIF_CBMC_EXTRA", "").split()
     return cmd
 
 
@@ -234,8 +234,9 @@ def replay(work, build, h, prop, outdir):
     cmd += registry.BUILDS[build]["cargo_args"] + registry.BUILDS[build].get("kani_args", [])
     cmd += ["--cbmc-args"] + registry.CBMC_ARGS
     try:
+        # (Kani turns formula slicing off to extract a trace: the playback solve needs far more memory than the check)
         p = subprocess.run(cmd, cwd=work, env=base_env(), stdout=subprocess.PIPE, stderr=subprocess.STDOUT,
-                           text=True, preexec_fn=limit_mem(registry.MEM_GB),
+                           text=True, preexec_fn=limit_mem(registry.REPLAY_MEM_GB),
                            timeout=registry.HARNESSES[h].get("timeout", 600) * 2 + 600)
     except subprocess.TimeoutExpired:
         return None, None, "playback generation timed out"
@@ -243,7 +244,7 @@ def replay(work, build, h, prop, outdir):
     if not tests:
         open(os.path.join(outdir, "playback-%s.log" % h), "w").write(p.stdout)
         return None, None, "no concrete playback test printed"
-    rdir = os.path.join(VERIF, "replays", prop)
+    rdir = os.path.join(os.environ.get("VERIF_REPLAY_DIR", os.path.join(VERIF, "replays")), prop)
     os.makedirs(rdir, exist_ok=True)
     rpath = os.path.join(rdir, h + ".rs")
     site = registry.SITES[registry.HARNESSES[h]["site"]]
@@ -289,25 +290,49 @@ def run_playback(work, build, h, rpath):
     return None, out
 
 
-def tree_key():
-    """Content hash of everything a harness result depends on: /repo's working tree (sources, manifest, lock file),
-    the harness sources, the registry and the tooling of this framework."""
-    import hashlib
-    h = hashlib.sha256()
-    roots = [os.path.join(REPO, "src"), os.path.join(VERIF, "harness"), os.path.join(VERIF, "lib")]
-    files = [os.path.join(REPO, "Cargo.toml"), os.path.join(REPO, "Cargo.lock")]
-    for r in roots:
-        for d, dn, fn in os.walk(r):
-            dn[:] = sorted(x for x in dn if x != "__pycache__")
-            for f in sorted(fn):
-                if not f.endswith(".pyc"):
-                    files.append(os.path.join(d, f))
+def _hash_files(h, files):
     for f in files:
         h.update(f.encode())
         try:
             h.update(open(f, "rb").read())
         except OSError:
             h.update(b"<missing>")
+
+
+def repo_key():
+    """Content hash of /repo's working tree (sources, manifest, lock file)."""
+    import hashlib
+    h = hashlib.sha256()
+    files = [os.path.join(REPO, "Cargo.toml"), os.path.join(REPO, "Cargo.lock")]
+    for d, dn, fn in os.walk(os.path.join(REPO, "src")):
+        dn[:] = sorted(dn)
+        for f in sorted(fn):
+            files.append(os.path.join(d, f))
+    # paths are hashed relative to the repo root so that a copy of the tree elsewhere has the same key
+    for f in files:
+        h.update(os.path.relpath(f, REPO).encode())
+        try:
+            h.update(open(f, "rb").read())
+        except OSError:
+            h.update(b"<missing>")
+    return h.hexdigest()
+
+
+def tree_key(harness=None):
+    """Content hash of everything the result of `harness` depends on: /repo's working tree, the harness source file
+    (and its includes), its registry entry, the build/cut configuration and the tooling that shapes the goto program."""
+    import hashlib
+    h = hashlib.sha256()
+    h.update(repo_key().encode())
+    files = [os.path.join(VERIF, "lib", "cbmc_wrap.py"), os.path.join(VERIF, "lib", "kani_lib", "kani_lib.c")]
+    if harness is not None:
+        spec = registry.HARNESSES[harness]
+        site = registry.SITES[spec["site"]]
+        files += [os.path.join(VERIF, "harness", site["file"])] + [os.path.join(VERIF, "harness", i) for i in site.get("include", [])]
+        h.update(json.dumps(spec, sort_keys=True).encode())
+        h.update(json.dumps(site, sort_keys=True).encode())
+    h.update(json.dumps([registry.WRAP_CFG, registry.CBMC_ARGS, registry.BUILDS, registry.MEM_GB], sort_keys=True).encode())
+    _hash_files(h, files)
     return h.hexdigest()[:24]
 
 
@@ -402,18 +427,18 @@ def main():
         by_build = {}
         for h in selected:
             by_build.setdefault(registry.HARNESSES[h].get("build", "real"), []).append(h)
-        key = tree_key()
+        key = repo_key()[:24]
         for build, hs in list(by_build.items()):
             fresh = []
             for h in hs:
-                c = cache_get(key, h)
+                c = cache_get(tree_key(h), h)
                 if c is not None:
                     results[h] = c
                 else:
                     fresh.append(h)
             if len(fresh) < len(hs):
                 log("[%s] build=%s: %d harness result(s) reused from this run's cache (identical /repo tree, harness and "
-                    "tooling hash %s)" % (prop, build, len(hs) - len(fresh), key))
+                    "tooling; /repo tree hash %s)" % (prop, build, len(hs) - len(fresh), key))
             by_build[build] = fresh
         for build, hs in by_build.items():
             light = [h for h in hs if not registry.HARNESSES[h].get("heavy")]
@@ -426,7 +451,7 @@ def main():
                 walls[tagname] = wall
                 results.update(res)
                 for h, r in res.items():
-                    cache_put(key, h, r)
+                    cache_put(tree_key(h), h, r)
 
         violations, known_hits, inconclusive, vacuous = [], [], [], []
         for h in selected:
@@ -488,8 +513,9 @@ def main():
         wall = time.time() - t0
         ev = build_evidence(prop, args.tier, seed, selected, results, confirmed, unconfirmed, known_hits,
                             inconclusive, vacuous, wall)
-        os.makedirs(os.path.join(VERIF, "evidence"), exist_ok=True)
-        json.dump(ev, open(os.path.join(VERIF, "evidence", prop + ".json"), "w"), indent=1)
+        evdir = os.environ.get("VERIF_EVIDENCE_DIR", os.path.join(VERIF, "evidence"))
+        os.makedirs(evdir, exist_ok=True)
+        json.dump(ev, open(os.path.join(evdir, prop + ".json"), "w"), indent=1)
 
         for h, e, f in known_hits:
             print("KNOWN-FINDING: property=%s %s [harness %s: %s]" % (prop, e["what"], h, f["description"]))
